@@ -778,6 +778,12 @@ func TestC19(t *testing.T) {
 	col := NewCollector("C19", "Check.C19",
 		"configuration trees over 1-3 spines of depth 1-4 with the five hierarchical settings present / absent / zero / empty / malformed at every level, installed through one viper layer, and 4-8 calls of the real util functions per tree; non-trivial = some call has a raw value configured at two or more of its candidate levels (so the choice of level decides the result); distinct by full input text")
 	n := EnvInt("VERIF_N", 1500)
+	// main.go's environment binding is one of the layers: start from a clean VOUCH_ namespace.
+	for _, kv := range os.Environ() {
+		if strings.HasPrefix(kv, "VOUCH_") {
+			os.Unsetenv(strings.SplitN(kv, "=", 2)[0])
+		}
+	}
 	var ins []Input
 	for _, in := range LoadInputs[Input]("C19") {
 		in.Tags = append(in.Tags, "corpus")
